@@ -67,10 +67,23 @@ def sh(cmd, cwd=None, env=None, timeout=1800):
     if env:
         e.update(env)
     try:
-        p = subprocess.run(cmd, cwd=cwd, shell=isinstance(cmd, str), stdout=subprocess.PIPE, stderr=subprocess.STDOUT, timeout=timeout, env=e)
-        return p.returncode, p.stdout.decode("utf-8", "replace")
-    except subprocess.TimeoutExpired as ex:
-        return 124, (ex.stdout or b"").decode("utf-8", "replace") + "\nTIMEOUT"
+        # own process group, killed as a whole on timeout: a mutant can make a test binary spin forever, and killing only the
+        # shell would leave it running
+        pr = subprocess.Popen(cmd, cwd=cwd, shell=isinstance(cmd, str), stdout=subprocess.PIPE, stderr=subprocess.STDOUT, env=e,
+                              start_new_session=True)
+        try:
+            out, _ = pr.communicate(timeout=timeout)
+            return pr.returncode, out.decode("utf-8", "replace")
+        except subprocess.TimeoutExpired:
+            import signal
+            try:
+                os.killpg(pr.pid, signal.SIGKILL)
+            except OSError:
+                pass
+            out, _ = pr.communicate()
+            return 124, (out or b"").decode("utf-8", "replace") + "\nTIMEOUT"
+    except OSError as ex:
+        return 125, str(ex)
 
 
 def code_region(src):
